@@ -30,11 +30,11 @@ def limit_mem(gb):
 class Job:
     """one bounded symbolic check = one cbmc run over one translated harness configuration"""
     def __init__(self, name, harness, defs, elems=(), std='c++17', unwind=10, maxalloc=8, minalloc=0,
-                 expect_witness=(), timeout=900, mem_gb=10, extra_clang=(), desc=None, unwindset=()):
+                 expect_witness=(), timeout=900, mem_gb=10, extra_clang=(), desc=None, unwindset=(), allocmask=None):
         self.name = name; self.harness = harness; self.defs = dict(defs); self.elems = list(elems)
         self.std = std; self.unwind = unwind; self.maxalloc = maxalloc; self.minalloc = minalloc
         self.expect_witness = list(expect_witness); self.timeout = timeout; self.mem_gb = mem_gb
-        self.extra_clang = list(extra_clang); self.desc = desc or name; self.unwindset = list(unwindset)
+        self.extra_clang = list(extra_clang); self.desc = desc or name; self.unwindset = list(unwindset); self.allocmask = allocmask
     def defflags(self):
         return ['-D%s=%s' % (k, v) if v is not None else '-D%s' % k for k, v in sorted(self.defs.items())]
     def ident(self):
@@ -86,7 +86,7 @@ def translate(j, wd, ll):
 
 def cbmc_cmd(j, c):
     cmd = ['cbmc', c, RT_C, '-I' + RT_DIR, '--unwind', str(j.unwind)] + CBMC_FLAGS + \
-          ['-DVF_MAXALLOC=%d' % j.maxalloc, '-DVF_MINALLOC=%d' % j.minalloc]
+          ['-DVF_MAXALLOC=%d' % j.maxalloc, '-DVF_MINALLOC=%d' % j.minalloc] + (['-DVF_ALLOCMASK=%du' % j.allocmask] if j.allocmask is not None else [])
     if j.unwindset: cmd += ['--unwindset', ','.join(j.unwindset)]
     return cmd
 
